@@ -8,10 +8,12 @@ import (
 
 func IgnoreSelfLoops(g *graph.DGraph) processor.F {
 	del := graph.EdgeSet{}
+	var loops []*graph.Edge // in edge-list order, so that they are restored in a deterministic order
 	for _, e := range g.Edges {
 		if e.From == e.To {
 			imonitor.Log(imonitor.KeySelfLoop, "removed: "+e.From.ID)
 			del[e] = true
+			loops = append(loops, e)
 		}
 	}
 	for e := range del {
@@ -22,7 +24,7 @@ func IgnoreSelfLoops(g *graph.DGraph) processor.F {
 		g.Edges.Remove(e)
 	}
 	return func(g *graph.DGraph) {
-		for e := range del {
+		for _, e := range loops {
 			imonitor.Log(imonitor.KeySelfLoop, "added: "+e.From.ID)
 			e.From.Out.Add(e)
 			e.To.In.Add(e)
